@@ -5,6 +5,7 @@ is the dependency  δ(v) = Σ_{t ≠ v} sigma[v] · dp(v,t) / sigma[t],  where `
 to `t` inside the shortest-path DAG (so `sigma[v]·dp(v,t)` is the number of shortest source–t paths through `v`).
 -/
 import SkNet.Lemmas.RankBrandesBack
+import Mathlib.Algebra.BigOperators.Field
 
 open Finset
 
@@ -94,12 +95,15 @@ theorem dep_rec {st : BState} (hd : Done n nbr src st) (v : ℕ) (hv : v < n) :
     unfold dep
     apply sum_congr rfl; intro t _
     by_cases hc : 0 ≤ D st t ∧ t ≠ v
-    · simp only [hc, and_self, if_true]
+    · rw [if_pos hc]
+      simp only [if_pos hc]
       rw [dp_first hd v t hc.2]
       push_cast
       rw [mul_sum, sum_div]
       apply sum_congr rfl; intro w _; ring
-    · simp only [hc, if_false]; simp
+    · rw [if_neg hc]
+      simp only [if_neg hc]
+      simp
   rw [h1, sum_comm]
   apply sum_congr rfl; intro w hw
   have hwn := mem_range.mp hw
@@ -145,8 +149,8 @@ theorem dep_rec {st : BState} (hd : Done n nbr src st) (v : ℕ) (hv : v < n) :
           rw [mul_sum]
           apply sum_congr rfl; intro t _
           by_cases hct : 0 ≤ D st t ∧ t ≠ v
-          · simp only [hct, and_self, if_true]; field_simp
-          · simp only [hct, if_false, mul_zero]
+          · rw [if_pos hct, if_pos hct]; field_simp
+          · rw [if_neg hct, if_neg hct, mul_zero]
       _ = _ := by rw [hinner]
 
 /-- ★ uniqueness: an array that satisfies the recursion at every node is the dependency -/
@@ -157,7 +161,7 @@ theorem rec_unique {st : BState} (hd : Done n nbr src st) (delta : List ℚ)
   have hterm : ∀ v w, recTerm st.sigma st.preds delta v w
       = (cmul st v w : ℚ) * ((S st v : ℚ) / (S st w : ℚ)) * (1 + delta.getD w 0) := fun _ _ => rfl
   -- induction on the distance to the deepest level
-  have key : ∀ k v, v < n → 0 ≤ D st v → (L : ℤ) - D st v ≤ k → delta.getD v 0 = dep n st v := by
+  have key : ∀ (k : ℕ) v, v < n → 0 ≤ D st v → (L : ℤ) - D st v ≤ (k : ℤ) → delta.getD v 0 = dep n st v := by
     intro k
     induction k with
     | zero =>
